@@ -196,6 +196,19 @@ def runOp (op : String) (fields : List String) (impl : String) : Option Verdict 
     let sd ← seed.toNat?
     let m := fmtCompile (compile [] s)
     pure { model := if m == normCompile impl then impl else m, oracle := evalOracle s sd impl }
+  | "COMPILESEQ", [ha, hb, ps] => do
+    let a ← Bytes.ofHex ha
+    let b ← Bytes.ofHex hb
+    let params ← parseParams ps
+    let ma := fmtCompile (compile params a)
+    let mb := fmtCompile (compile params b)
+    match impl.splitOn " ;; " with
+    | [ia, ib, st] =>
+      -- each call is the function value for its own (source, parameters): no history
+      pure { model := (if ma == normCompile ia then ia else ma) ++ " ;; " ++ (if mb == normCompile ib then ib else mb) ++ " ;; PARAMS-OK",
+             oracle := (if st != "PARAMS-OK" then ["c14-parameter-map-modified", "c06-let-escapes-its-program"] else []) ++
+                       (if mb != normCompile ib && ma == normCompile ia then ["c06-let-escapes-its-program", "c14-result-depends-on-history"] else []) }
+    | _ => pure { model := ma ++ " ;; " ++ mb ++ " ;; PARAMS-OK", oracle := ["unreadable-result"] }
   | "COMPILE2", [ha, hb, ps] => do
     let a ← Bytes.ofHex ha
     let b ← Bytes.ofHex hb
